@@ -663,7 +663,7 @@ def _hunt_case(rng):
     tbl = {"k": "table", "fields": ["id", "st"], "ft": {"st": 0}, "fmt": "id,st", "recs": [[1, 1], [2, 2], [3, 3]],
            "header": None, "footer": "", "titles": None}
     a, b = rng.sample(COLORS[1:], 2)
-    return {"fts": [ft], "objs": [tbl], "hunt": 200,
+    return {"fts": [ft], "objs": [tbl], "hunt": 40,
             "ops": [["newconf", 0, False, {"RECORD.NUMBER": a, "NAME": a + ":bold"}], ["render", 0, 0, False, "none", 0], ["drop", 0],
                     ["newconf", 1, False, {"RECORD.NUMBER": b, "NAME": b}], ["render", 0, 1, False, "none", 0], ["drop", 1]]}
 
